@@ -134,3 +134,26 @@ func (k *verifKeep) check() {
 		verifAssert(verifSame(k.refs[i], k.copies[i]), "results-handed-out-earlier-are-not-rewritten-by-later-calls")
 	}
 }
+
+// VerifC20Fields: a packet built by hand (hardware address of hwlen bytes, also longer than the
+// 16-byte wire field; names; addresses): every read-only method and every encoding leaves the
+// packet's exported fields exactly as they were.
+func VerifC20Fields(hwlen int) {
+	hw := verifBytes("chaddr", hwlen)
+	p := &DHCPv4{OpCode: OpcodeBootRequest, HWType: iana.HWTypeEthernet, ClientHWAddr: hw,
+		ClientIPAddr: verifBytes("ciaddr", 4), YourIPAddr: verifBytes("yiaddr", 4), ServerIPAddr: verifBytes("siaddr", 4), GatewayIPAddr: verifBytes("giaddr", 4),
+		ServerHostName: string(verifNonZeroBytes("sname", 3)), BootFileName: string(verifNonZeroBytes("file", 3)),
+		Options: Options{53: []byte{1}}}
+	hw0 := append([]byte(nil), hw...)
+	ci0, yi0 := append([]byte(nil), p.ClientIPAddr...), append([]byte(nil), p.YourIPAddr...)
+	sn0, fn0 := p.ServerHostName, p.BootFileName
+	b0 := p.ToBytes()
+	for k := range verifPacketReaderNames {
+		verifPacketReader(p, k)
+		verifAssert(len(p.ClientHWAddr) == hwlen && verifSame(p.ClientHWAddr, hw0), "reader-leaves-the-packets-fields-unchanged")
+	}
+	verifAssert(verifSame(p.ClientIPAddr, ci0) && verifSame(p.YourIPAddr, yi0), "reader-leaves-the-packets-fields-unchanged")
+	verifAssert(verifSameStr(p.ServerHostName, sn0) && verifSameStr(p.BootFileName, fn0), "reader-leaves-the-packets-fields-unchanged")
+	verifAssert(verifSame(p.ToBytes(), b0), "reader-leaves-encoding-unchanged")
+	verifReach("end")
+}
